@@ -22,6 +22,25 @@ CHECKS = {
    technique="Coq proof (induction, polynomial root counting, Lagrange interpolation over an abstract field) + "
              "differential correspondence of the extracted model against the real code",
    ref="5/C09"),
+ "C01": dict(
+   text="Coq theorems over the model of the recoverSign stage (Models/Recover.v on Tbls.v and Stages.v), for EVERY sequence "
+        "of arrivals (nil messages, other contents, duplicates, re-encodings, foreign requests/groups, any order): a report "
+        "(result, sig) always satisfies sig = H(result ++ a) * x for the 20 bytes a that closed the signed content - the "
+        "contract's equation (C01_only_valid_reports); nothing after a report changes it (C01_single_report); no panic on "
+        "contents of at least address length (C01_stage_no_panic); once collected + arriving shares contain valid shares of t "
+        "distinct members on the arriving content the stage reports, whatever junk is present (C01_stage_live, uses C02). "
+        "Tie: (a) the real recoverSign driven with scripted arrivals vs the extracted model; (b) n = 3..7 real DosNodes "
+        "(queryLoop + handleQuery) over an in-memory network with up to n-t members playing {silent, duplicate, re-encoded, "
+        "invalid, foreign request, foreign group, 1-byte signature, nil content, other content}, submitter late / peers "
+        "staggered; judge: exactly one report, by the derived submitter, passing the contract equation on the REAL EVM "
+        "precompiles under the group key and the submitter's address, to the right contract call.",
+   note=TB + "partial: 'can reach the submitter' and the deadlines are runtime; the node-level composition (non-submitters "
+        "never reach the recovery path, the submitter's own share is forwarded before registration) is exercised by the system "
+        "runs, not proved; unforgeability (t valid shares on a content imply an honest member signed it) is the hypothesis "
+        "that links the stage theorem to 'the honest content'.",
+   technique="Coq proof (induction over the arrival list, composition of C02/C03/C07 lemmas) + stage-level differential "
+             "correspondence + multi-node system runs judged by the EVM precompiles",
+   ref="5/C01"),
  "C02": dict(
    text="Coq theorems over the Gallina model of tbls.Recover / tbls.Verify / bls.Verify (Models/Tbls.v, discrete-log level, "
         "wire decoder as a parameter): for every field, threshold, group size, polynomial, message and candidate list in which "
